@@ -53,6 +53,9 @@ RULE = ("matrix part: every m x n (1<=n<=m<=4, thorough 6; generic members to 8;
         "non-symmetric, inverses of such) x every d in {-2,-.5,0,.5,1,10}^n and complex d in {0,1,.5+.5j,-j}^n "
         "with well-conditioned partial sums; chordal part: all pairs of the tiny exhaustive families, generic "
         "pairs (s,s+1..s+3), nearly dependent pairs; conv part: 301 points over 30 decades x bits 1..12. "
+        "Degenerate and wide shapes (1x1, 1xn and mx1 up to 6, 2x3..5x6; real and complex generic, scaled, nearly "
+        "dependent, nearly tied members) through gmd, least_right_singular_vectors, peig/leig and whitening (the "
+        "projection needs full column rank). "
         "Every kernel additionally: global scale factors 1e-12..1e9 on generic/nearly dependent members, nearly "
         "tied singular values (relative gaps 1e-6, 1e-9), and an aliasing battery (arguments Fortran ordered, "
         "read-only transposed view, read-only C copy: arguments bit-identical afterwards, no exception, second call "
@@ -165,10 +168,36 @@ def scaled_items(tier):
                                g * tied_member(s, shape, prof))
 
 
+def degenerate_and_wide_items(tier):
+    """every shape with 1 as a dimension (1x1, 1xn, mx1 up to 6) and a few properly wide shapes, real AND
+    complex generic entries (every complex entry has a non-zero imaginary part), also at other magnitudes.
+    (The tall / square shapes of the other families only ever give the kernels n <= m.)"""
+    thorough = tier == "thorough"
+    S = 20 if thorough else 6
+    one = [(1, 1)] + [(1, n) for n in range(2, 7)] + [(m, 1) for m in range(2, 7)]
+    wide = [(2, 3), (2, 5), (3, 4), (3, 6), (4, 5), (5, 6)] + ([(2, 4), (2, 6), (4, 6), (6, 8)] if thorough else [])
+    for shape in one + wide:
+        m, n = shape
+        for s in range(S):
+            yield ("degen_c", s, F.generic(s, shape, True, tag=30))
+            yield ("degen_r", s, F.generic(s, shape, False, tag=30))
+        for g in (1e-9, 1e6):
+            for s in range(2):
+                yield ("degen_c@%g" % g, s, g * F.generic(s, shape, True, tag=30))
+        if min(m, n) >= 2:
+            for kappa in (1e2, 1e4):
+                for s in range(S // 2):
+                    yield ("degen_neardep%g" % kappa, s, F.nearly_dependent(s, shape, kappa))
+            for pi, prof in enumerate(near_tied_profiles(min(m, n))[:2]):
+                yield ("degen_neartied%d" % pi, 0, tied_member(0, (n, m), prof).T.copy())
+
+
 def matrix_items(tier):
     for it in base_matrix_items(tier):
         yield it
     for it in scaled_items(tier):
+        yield it
+    for it in degenerate_and_wide_items(tier):
         yield it
 
 
@@ -414,10 +443,14 @@ def run_gmd(chk, case, A, kappa, sv):
         if not low <= C * N.EPS * kappa * scA:           # value level: zero up to rounding (not bitwise)
             chk.fail(("gmd", "R_not_upper_triangular"), case, observed=low, expected=0)
         gm = math.exp(float(np.mean(np.log(sv))))
-        dg = np.diag(R)[:n]
-        if not N.close(dg, np.full(n, gm), 1.0, C):
+        r_ = min(m, n)                      # number of singular values (wide matrices: m)
+        dg = np.diag(R)[:r_]
+        if not N.close(dg, np.full(r_, gm), 1.0, C):
             chk.fail(("gmd", "diagR!=geometric_mean"), case, observed=dg, expected=gm)
-        chk.outcome("gmd_rotations", (n, int(np.sum(np.abs(np.triu(R[:n, :n], 1)) > 1e-9 * gm))))
+        chk.outcome("gmd_rotations", (r_, int(np.sum(np.abs(np.triu(R[:r_, :r_], 1)) > 1e-9 * gm))))
+        chk.outcome("gmd_shape_class", ("1x1" if m == n == 1 else "1xn" if m == 1 else "mx1" if n == 1 else
+                                        "wide" if m < n else "square" if m == n else "tall",
+                                        "complex" if np.iscomplexobj(A) else "real"))
     Ua, Sa, Va = np.linalg.svd(np.array(A))
     alias_battery(chk, "gmd", misc.gmd, [Ua, Sa, Va], case, kappa)
 
@@ -427,7 +460,7 @@ def run_gmd(chk, case, A, kappa, sv):
 # ----------------------------------------------------------------------
 def run_lrsv(chk, case, A, orient):
     from pyphysim.util import misc
-    B = np.array(A) if orient == "tall" else np.array(A).T.copy()
+    B = np.array(A) if orient in ("tall", "asis") else np.array(A).T.copy()
     r, c = B.shape
     sv = np.linalg.svd(np.asarray(B, dtype=complex), compute_uv=False)       # descending
     asc = np.concatenate([np.zeros(max(0, c - r)), sv[::-1]])                 # one per right singular vector
@@ -609,6 +642,16 @@ def run_matrix_item(chk, fam, member, A):
     if fam.endswith("_gmdonly"):
         run_gmd(chk, dict(case, kernel="gmd"), A, kappa, sv)
         return
+    if m < n:
+        # wide members (incl. the single-row 1 x n ones): every kernel whose statement admits them.  The
+        # projection needs full COLUMN rank and is not defined here.
+        run_gmd(chk, dict(case, kernel="gmd"), A, kappa, sv)
+        run_lrsv(chk, case, A, "asis")
+        run_eig(chk, case, gram, "A^H.A")
+        run_eig(chk, case, outer, "A.A^H")
+        g2w = fam_scale(fam) ** 2
+        run_whiten(chk, dict(case, eps=1.0 * g2w), outer + g2w * np.eye(m), "A.A^H+eps.I")
+        return
     if kappa <= bound(K_PROJ):
         run_projection(chk, dict(case, kernel="projection"), A, kappa)
     else:
@@ -779,7 +822,7 @@ def chordal_pairs(tier):
                 for dlt in (0, 1, 2, 3, 5, 41):
                     j = (i + dlt) % L
                     yield (nm, (i, j), mats[i], mats[j])
-    for (m, k) in shapes(M):
+    for (m, k) in shapes(M) + ([] if thorough else [(5, 1), (6, 1)]):
         for s in range(S):
             for dlt in (1, 2, 3):
                 yield ("generic_c", (s, s + dlt), F.generic(s, (m, k), True, tag=25),
@@ -1024,6 +1067,7 @@ def main(chk: Check):
                 "B": np.array([[1.], [0.]])})
     chk.require_outcomes("kappa_decade", 5)
     chk.require_outcomes("proj_dims", 10)
+    chk.require_outcomes("gmd_shape_class", 12)
     chk.require_outcomes("lrsv_split", 20)
     chk.require_outcomes("eig_select", 20)
     chk.require_outcomes("whiten", 6)
